@@ -13,6 +13,9 @@ CHECKS = {
  'C05': dict(tech=T + ' for every Boxed_Number::go<L,R>; leaf mul/div/FP operations as uninterpreted functions',
    text='For every enumerated type pair the real go<L,R> is executed symbolically for all operand bit patterns, all 33 operator codes and both mutabilities; the solver shows result type, value, in-place update, exception class and absence of trapping divisions agree with the C++ expression on the same types. Bounded by the enumerated instantiations, not by values.',
    note='mul/div/rem and floating-point leaf operations are uninterpreted (same symbol on both sides); const_var<T> and exception constructors are stubs'),
+ 'C10': dict(tech=T + ' (Try_AST_Node::eval_internal/handle_exception) with abstract children that return or throw any of 6 exception kinds',
+   text='For every shape of try/catch/finally (0-2 clauses, typed or not, finally or not) the real node code is executed symbolically with the body, handlers and finally block as abstract children: first matching clause runs once, finally exactly once on every path, an exception no clause accepts leaves as the very same object, a throw in a handler/finally is what leaves, scope depth is restored. Inductive step for the whole-program statement.',
+   note='children/Param_Types::match are oracles; Boxed_Value construction/destruction cut; other nodes (Fun_Call, dispatch, engine wrappers) not yet covered'),
  'C16': dict(tech=T + ' (buildInt, Char_Parser, Id) plus z3 bit-vector search for FNV-1a collisions whose models are executed through the real Id()',
    text='Integer literal typing/value for all 64-bit values x 4 bases x all valid suffix spellings; escape decoding as an inductive step from an arbitrary decoder state (any literal length) plus all byte strings up to N against a reference C++ escape decoder; word literals recognised by exact spelling for all buffers up to N bytes and for the identifiers z3 finds to collide with each keyword hash.',
    note='strtol-family digit conversion is a trusted 12-line model; floating literal accuracy (parse_num) is declined; decoded literals <= 15 bytes (SSO string model)'),
